@@ -94,7 +94,8 @@ pub fn run(ctx: &RunCtx) -> i32 {
         if s.label == "Nonce+0tail" || s.label == "rfc5769-2.2" {
             r.sample(json!({"seed": s.label, "seed_bytes": hex(&s.bytes), "single_fault_mutants": n}));
         }
-        if thorough && s.bytes.len() <= 64 {
+        // pairs of faults: single-attribute seeds (and vectors / unknown-attribute messages) up to 64 bytes
+        if thorough && s.bytes.len() <= 64 && s.label.matches('+').count() <= 1 {
             let n2 = faults::double_faults(&s.bytes, &mut |m, class| {
                 probe_decoders(m, class, &decs, &mut r);
                 r.sym(class);
